@@ -13,9 +13,10 @@ import c03 as H3
 
 ID = 'C12'
 COQ_FILES = ['Model/Distance.v', 'Model/Paths.v', 'Proofs/DistanceBase.v', 'Proofs/DistanceFloyd.v', 'Proofs/Paths.v',
-             'Properties/C12.v']
+             'Proofs/PathsFull.v', 'Properties/C12.v']
 THEOREMS = ['C12_floyd_path_inv', 'C12_retrieve_valid', 'C12_retrieve_empty_iff', 'C12_retrieve_shortest',
-            'C12_retrieve_transforms', 'C12_nav_walk_valid', 'C12_nav_all_valid', 'C12_nav_success_ratio',
+            'C12_retrieve_diag', 'C12_retrieve_transforms', 'C12_nav_walk_valid', 'C12_nav_fail_all_inf',
+            'C12_nav_one_per_pair', 'C12_nav_returns', 'C12_nav_all_valid', 'C12_nav_success_ratio',
             'C12_nav_step_greedy']
 RULE = ('retrieve_shortest_path: all (s,t) on binary graphs (exhaustive all digraphs n<=3 quick / n<=4 thorough, all undirected '
         'n<=4 / n<=5) and on structured/random families n<=8 with tie-heavy lengths {1,2},{1,2,3}, inv transform (dyadic exact and '
@@ -64,6 +65,8 @@ def check_retrieve(ctx, bct, Wn, Lx, transform, case, exact, B_, tbl='0', trn=0,
             p = path_list(call(bct.retrieve_shortest_path, s, t, Hh, P))
             paths.append(p)
             if s == t:
+                if p:
+                    ctx.fail(fn + ':diag-empty', 'source = target = %d: hops is 0 but a path %s was returned' % (s, p), case)
                 continue
             what = None
             if not exact and dist[s][t] != INF and H3.tie_signature(Hh, P, s, t, n, isedge, elen, dist[s][t]) is not None:
@@ -232,13 +235,13 @@ def compare_models(ctx, B_):
                 for (i, j), (mp, ml) in zip(pairs, m[1]):
                     if [int(x) for x in mp] != [int(x) for x in paths[(i, j)]]:
                         ok = False; break
-                    if ml is None:
-                        if not (np.isinf(PLb[i, j]) and np.isinf(PLw[i, j]) and np.isinf(PLd[i, j])):
-                            ok = False; break
-                    else:
-                        b, (w, d) = ml
-                        if not (int(b) == PLb[i, j] and float(dec_q(w)) == PLw[i, j] and float(dec_q(d)) == PLd[i, j]):
-                            ok = False; break
+                    # the three reported lengths are compared one by one (None = inf)
+                    b, (w, d) = ml
+                    mb = INF if b is None else int(b)
+                    mw = INF if w is None else float(dec_q(w))
+                    md = INF if d is None else float(dec_q(d))
+                    if not (mb == PLb[i, j] and mw == PLw[i, j] and md == PLd[i, j]):
+                        ok = False; break
             if not ok:
                 ctx.mismatch('navigation_wu', 'model and implementation differ (sr, a path, or a reported length)', case,
                              [str(msr), m[1]], [sr, {str(k): v for k, v in paths.items()}, PLb, PLw, PLd])
